@@ -460,6 +460,100 @@ func c02R1(c *Ctx, p *Prog) {
 			}
 		}
 	})
+	// rights lost row by row: a loop over a table of (square, right) records, `if from == row.sq || to == row.sq { affected |= row.right }`
+	if rows, fFrom, fTo, ok := structTableRows(p, fn, -1); ok && !tableForm {
+		rowField := func(v ssa.Value) (int, ssa.Value) {
+			v = stripConv(v)
+			switch x := v.(type) {
+			case *ssa.Field:
+				return x.Field, x.X
+			case *ssa.UnOp:
+				if fa, ok := x.X.(*ssa.FieldAddr); ok && x.Op == token.MUL {
+					return fa.Field, fa.X
+				}
+			}
+			return -1, nil
+		}
+		allInstrs(fn, func(in ssa.Instruction) {
+			bo, ok := in.(*ssa.BinOp)
+			if !ok || bo.Op != token.OR {
+				return
+			}
+			for _, opnd := range []ssa.Value{bo.X, bo.Y} {
+				fRight, base := rowField(opnd)
+				if fRight < 0 || traceToGlobal(base, 0) == nil {
+					continue
+				}
+				// every row is visited
+				ix := tableRowIndex(base, 0)
+				n, full := int64(0), false
+				if ix != nil {
+					n, full = fullRangeIndexAny(ix)
+				}
+				if !full || n != int64(len(rows)) {
+					c.Undec(rule, "corner-table#all-rows", bo.Pos(), "the loop over the corner table is not recognised as visiting all %d rows", len(rows))
+					seen["ShortWhite"], seen["LongWhite"], seen["ShortBlack"], seen["LongBlack"] = true, true, true, true
+					return
+				}
+				// the or-ing is entered exactly on `from == row.sq` / `to == row.sq`
+				nf, nt, other := 0, 0, 0
+				for _, e := range entryEdges(bo.Block()) {
+					cmp, isCmp := e.Cond.(*ssa.BinOp)
+					if e.Cond == nil || !isCmp || cmp.Op != token.EQL || !e.True {
+						other++
+						continue
+					}
+					hit := false
+					for _, pr := range [][2]ssa.Value{{cmp.X, cmp.Y}, {cmp.Y, cmp.X}} {
+						fi, b2 := rowField(pr[0])
+						if fi < 0 || traceToGlobal(b2, 0) == nil {
+							continue
+						}
+						switch accessor(pr[1]) {
+						case "from":
+							if fi == fFrom {
+								nf++
+								hit = true
+							}
+						case "to":
+							if fi == fTo {
+								nt++
+								hit = true
+							}
+						}
+					}
+					if !hit {
+						other++
+					}
+				}
+				if other > 0 {
+					c.Undec(rule, "corner-table#entry", bo.Pos(), "the or-ing of the table's right has %d entry conditions the rule does not understand", other)
+					seen["ShortWhite"], seen["LongWhite"], seen["ShortBlack"], seen["LongBlack"] = true, true, true, true
+					return
+				}
+				tableForm, tablePos = true, bo.Pos()
+				for _, row := range rows {
+					for bit, name := range rights {
+						if row[fRight]&bit == 0 {
+							continue
+						}
+						if nf > 0 {
+							if lostFrom[name] == nil {
+								lostFrom[name] = map[int64]bool{}
+							}
+							lostFrom[name][row[fFrom]] = true
+						}
+						if nt > 0 {
+							if lostTo[name] == nil {
+								lostTo[name] = map[int64]bool{}
+							}
+							lostTo[name][row[fTo]] = true
+						}
+					}
+				}
+			}
+		})
+	}
 	if tableForm {
 		for _, name := range []string{"ShortWhite", "LongWhite", "ShortBlack", "LongBlack"} {
 			if seen[name] {
@@ -495,9 +589,24 @@ func c02R1(c *Ctx, p *Prog) {
 			}
 		}
 	}
+	// rights or-ed in from some table the forms above do not read
+	opaqueTable := false
+	allInstrs(fn, func(in ssa.Instruction) {
+		if bo, ok := in.(*ssa.BinOp); ok && bo.Op == token.OR {
+			for x := range backSlice(bo, sliceOpts{Stop: func(v ssa.Value) bool { _, isPhi := v.(*ssa.Phi); return isPhi }}) {
+				if _, isG := x.(*ssa.Global); isG {
+					opaqueTable = true
+				}
+			}
+		}
+	})
 	for _, n := range []string{"ShortWhite", "LongWhite", "ShortBlack", "LongBlack"} {
 		if !seen[n] {
-			c.Fail(rule, "corner:"+n, fn.Pos(), "NewCastles never clears %s", n)
+			if opaqueTable {
+				c.Undec(rule, "corner:"+n, fn.Pos(), "no recognised clearing of %s; rights are taken from a table in a form the rule does not read", n)
+			} else {
+				c.Fail(rule, "corner:"+n, fn.Pos(), "NewCastles never clears %s", n)
+			}
 		}
 	}
 	if !kingOK {
@@ -1355,6 +1464,28 @@ func c02R8(c *Ctx, p *Prog) {
 			appliers[f] = true
 		}
 	}
+	// wrappers: functions of package uci that hand the move list on to an applier without installing a board themselves
+	for changed := true; changed; {
+		changed = false
+		for _, f := range p.OwnFuncs() {
+			if f == fn || appliers[f] || relPkg(fnPkgPath(f)) != "uci" || len(fieldStores(f, "Driver.board")) > 0 {
+				continue
+			}
+			allInstrs(f, func(in ssa.Instruction) {
+				if ci, ok := in.(ssa.CallInstruction); ok && !appliers[f] {
+					if callee := ci.Common().StaticCallee(); callee != nil && appliers[callee] {
+						// only a wrapper if handlePosition is among its callers
+						for _, hc := range callsInFn(fn, f) {
+							_ = hc
+							appliers[f] = true
+							changed = true
+							break
+						}
+					}
+				}
+			})
+		}
+	}
 	var calls []ssa.CallInstruction
 	allInstrs(fn, func(in ssa.Instruction) {
 		if ci, ok := in.(ssa.CallInstruction); ok {
@@ -1419,6 +1550,97 @@ func c02R8(c *Ctx, p *Prog) {
 			freshStores = append(freshStores, st)
 		}
 	}
+	// installers: helpers of package uci that store a fresh board into the driver. With a bool result the board is
+	// installed when the helper reports success (every return that is not `false` is dominated by the store): the
+	// barrier is then the branch taken on success. Without a result the call itself is the barrier.
+	opaqueInstall := false
+	var freshBlocks []*ssa.BasicBlock
+	allInstrs(fn, func(in ssa.Instruction) {
+		call, ok := in.(*ssa.Call)
+		if !ok {
+			return
+		}
+		h := call.Call.StaticCallee()
+		if h == nil || !isOwn(h) || h.Blocks == nil || appliers[h] || relPkg(fnPkgPath(h)) != "uci" {
+			return
+		}
+		sts := fieldStores(h, "Driver.board")
+		if len(sts) == 0 {
+			return
+		}
+		allFresh := true
+		for _, st := range sts {
+			if !freshBoard(st.Val, 0) {
+				allFresh = false
+			}
+		}
+		nres := h.Signature.Results().Len()
+		boolRes := nres == 1 && isBoolType(call)
+		okRets := allFresh
+		allInstrs(h, func(x ssa.Instruction) {
+			ret, isRet := x.(*ssa.Return)
+			if !isRet {
+				return
+			}
+			if boolRes {
+				if k, isc := returnedValue(ret, 0).(*ssa.Const); isc {
+					if kv, _ := constOf(k); kv == 0 {
+						return // reports failure: nothing installed, nothing promised
+					}
+				}
+			}
+			dominated := false
+			for _, st := range sts {
+				if instrDominates(st, ret) {
+					dominated = true
+				}
+			}
+			if !dominated {
+				okRets = false
+			}
+		})
+		if !okRets || (nres > 0 && !boolRes) {
+			opaqueInstall = true
+			return
+		}
+		if !boolRes {
+			freshStores = append(freshStores, call)
+			return
+		}
+		found := false
+		for _, blk := range fn.Blocks {
+			if len(blk.Instrs) == 0 {
+				continue
+			}
+			iff, isIf := blk.Instrs[len(blk.Instrs)-1].(*ssa.If)
+			if !isIf {
+				continue
+			}
+			v, neg := ssa.Value(iff.Cond), false
+			for {
+				if u, ok := v.(*ssa.UnOp); ok && u.Op == token.NOT {
+					v, neg = u.X, !neg
+					continue
+				}
+				break
+			}
+			if v != ssa.Value(call) {
+				continue
+			}
+			tb := blk.Succs[0]
+			if neg {
+				tb = blk.Succs[1]
+			}
+			if len(tb.Preds) == 1 && len(tb.Instrs) > 0 {
+				freshStores = append(freshStores, tb.Instrs[0])
+				freshBlocks = append(freshBlocks, tb)
+				found = true
+			}
+		}
+		if !found {
+			opaqueInstall = true
+		}
+	})
 	for i, ci := range calls {
 		stale, _ := reachAvoidingTo(fn.Blocks[0].Instrs[0], ci.(ssa.Instruction), func(x ssa.Instruction) bool {
 			for _, st := range freshStores {
@@ -1428,6 +1650,15 @@ func c02R8(c *Ctx, p *Prog) {
 			}
 			return false
 		})
+		for _, fb := range freshBlocks {
+			if blockDomOrSame(fb, ci.Block()) {
+				stale = false
+			}
+		}
+		if stale && opaqueInstall {
+			c.Undec(rule, fmt.Sprintf("handlePosition#applyMoves@%d", i+1), ci.Pos(), "the board is installed through a helper whose success/failure protocol is not recognised")
+			continue
+		}
 		c.Check(!stale, rule, fmt.Sprintf("handlePosition#applyMoves@%d", i+1), ci.Pos(), "the move list is applied to a board installed by this very command (StartPos() or the accepted FEN) on every path: the resulting position does not depend on earlier commands")
 	}
 	c.Floor(rule, len(calls), 1, "applyMoves calls in handlePosition")
@@ -1521,4 +1752,55 @@ func derefType(t types.Type) types.Type {
 		return p.Elem()
 	}
 	return t
+}
+
+// tableRowIndex: the index with which the row that v belongs to is taken out of its package-level table.
+func tableRowIndex(v ssa.Value, depth int) ssa.Value {
+	if depth > 8 || v == nil {
+		return nil
+	}
+	switch x := v.(type) {
+	case *ssa.UnOp:
+		if x.Op == token.MUL {
+			return tableRowIndex(x.X, depth+1)
+		}
+	case *ssa.IndexAddr:
+		if traceToGlobal(x.X, 0) != nil {
+			return x.Index
+		}
+	case *ssa.Index:
+		if traceToGlobal(x.X, 0) != nil {
+			return x.Index
+		}
+	case *ssa.FieldAddr:
+		return tableRowIndex(x.X, depth+1)
+	case *ssa.Field:
+		return tableRowIndex(x.X, depth+1)
+	case *ssa.Alloc:
+		if x.Referrers() != nil {
+			var val ssa.Value
+			n := 0
+			for _, r := range *x.Referrers() {
+				if st, ok := r.(*ssa.Store); ok && st.Addr == ssa.Value(x) {
+					n++
+					val = st.Val
+				}
+			}
+			if n == 1 {
+				return tableRowIndex(val, depth+1)
+			}
+		}
+	}
+	return nil
+}
+
+// callsInFn: the calls in fn whose static callee is h.
+func callsInFn(fn, h *ssa.Function) []ssa.CallInstruction {
+	var out []ssa.CallInstruction
+	allInstrs(fn, func(in ssa.Instruction) {
+		if ci, ok := in.(ssa.CallInstruction); ok && ci.Common().StaticCallee() == h {
+			out = append(out, ci)
+		}
+	})
+	return out
 }
